@@ -62,6 +62,23 @@ def sctr_parts(quick):
         else: szs = [0, 1, 3, bs - 1, bs, "null", bs + 1, 4294967295]
         out += ["sctr_%s_%s_%s" % (c, be, sz) for sz in szs]
     return out
+# key / tweak setters of the CTR back ends functionally (WholeCtrKey.v)
+def kctr_parts(quick, what="all"):
+    out = []
+    for c, bes, bs, r2, r3 in (("c128", ("def", "v128", "v256"), 16, 48, 56), ("c64", ("def", "v128"), 8, 36, 40)):
+        for be in bes:
+            if quick:
+                sk = [2 * bs + 1] if be == "def" else [bs - 1, 3 * bs]; stk = [bs + 3] if be != "def" else [2 * bs + 1]
+                st = [(r2, 3)] if be != "def" else [(r3, "null")]
+            else:
+                sk = [bs - 1, bs, bs + 1, 2 * bs, 2 * bs + 5, 3 * bs, 3 * bs + 1]; stk = [bs - 1, bs, bs + 3, 2 * bs, 2 * bs + 1]
+                st = [(r2, 1), (r2, bs), (r3, bs - 1), (r3, "null"), (r2, 0), (r3, bs + 1)]
+            if what in ("all", "key"): out += ["kctr_%s_%s_sk_%d" % (c, be, n) for n in sk] + ["kctr_%s_%s_stk_%d" % (c, be, n) for n in stk]
+            if what in ("all", "tweak"): out += ["kctr_%s_%s_st_%d_%s" % (c, be, r, t) for r, t in st]
+    for be in ("def", "v128"):
+        if what in ("all", "key"): out += ["kctr_mc_%s_sk_%d" % (be, r) for r in ((6, 9) if quick else (4, 5, 6, 7, 8, 9))]
+        if what in ("all", "tweak"): out += ["kctr_mc_%s_st_%s" % (be, t) for t in (("null",) if quick else ("8", "null", "7"))]
+    return out
 def key_parts(w, quick):
     bs = 16 if w == "128" else 8
     fam = "key" + w
